@@ -107,6 +107,7 @@ package stack
 //@   ensures [neverBackToLooking C02 C07] old(s.state) != looking ==> s.state != looking
 //@   ensures [lookingPassThrough C02] old(s.state) == looking ==> result1 == nil && (!result0 ==> s.state == looking)
 //@   ensures [consumedLeavesLooking C02] result0 ==> s.state != looking
+//@   ensures [uniformIndentation C01] old(s.state) != looking && s.state != done && s.state != looking ==> sameslice(s.prefix, old(s.prefix))
 //@   ensures [growOnly C01 C10] len(s.Goroutines) >= old(len(s.Goroutines)) && len(s.Goroutines) <= old(len(s.Goroutines)) + 1 && forall i :: 0 <= i && i < old(len(s.Goroutines)) ==> s.Goroutines[i] == old(s.Goroutines[i])
 
 //@   loop 0: invariant 1 <= i
